@@ -842,6 +842,9 @@ func (g *nsGen) rebindProgram(depth int) ([]any, []any) {
 		send = J{"k": "send", "amt": J{"k": "mon", "e": amt}, "src": J{"k": "src", "s": s}, "dst": d, "destFirst": g.r.p(8)}
 	}
 	stmts := []any{send}
+	if g.r.p(25) { // after the send, from its source account, in an asset named otherwise than the send's
+		stmts = append(stmts, J{"k": "saveAll", "asset": lit("asset", g.r.pick(assets)), "acc": a})
+	}
 	for i, n := 0, g.r.n(3); i < n; i++ {
 		switch g.r.n(6) {
 		case 0:
